@@ -156,6 +156,7 @@ Inductive step_inv (fx watch : bool) (s s' : sys) : Prop :=
     (* nothing is lost: every message in flight stays, except the one being consumed; every output is delivered *)
     (forall dst m, msg_in s dst m -> msg_in s' dst m \/ (dst = ATarget t /\ e = EMsg m)) ->
     (forall dst m, OMsg dst m ∈ os -> msg_in s' dst m) ->
+    (e = EBuildDone RCancelled -> cancel_sent a = true) ->
     step_inv fx watch s s'
 | SI_root :
     actors s' = actors s -> inbox s' = inbox s -> hist s' = hist s -> slot s' = slot s ->
@@ -177,9 +178,10 @@ Lemma apply_step_inv fx watch s t a e ok ib sl tq s' :
   (forall m, e = EMsg m -> msg_in s (ATarget t) m) ->
   (e = EInval -> t ∈ slot s) -> (e = ETerm -> t ∈ termq s) ->
   sl ⊆ slot s -> tq ⊆ termq s ->
+  (e = EBuildDone RCancelled -> cancel_sent a = true) ->
   step_inv fx watch s s'.
 Proof.
-  intros Ha Happ Hib Hkeep Hm Hi Ht Hsl Htq. unfold apply_step in Happ.
+  intros Ha Happ Hib Hkeep Hm Hi Ht Hsl Htq Hcan. unfold apply_step in Happ.
   destruct (actor_step fx ok a e) as [[[a' os] ob]|] eqn:Hstep; [|done].
   destruct (route ib (rootq s) os) as [ib' rq'] eqn:Hr. injection Happ as <-.
   pose proof (route_keeps _ _ _ _ _ Hr) as (Hk1 & Hk2 & Hk3 & Hk4).
@@ -218,8 +220,9 @@ Proof.
   - destruct (actors s !! t) as [a|] eqn:Ha; [|done]. case_bool_decide; [|done].
     eapply (apply_step_inv fx watch s t a ETerm true); try done; [eauto|eauto|set_solver].
   - destruct (actors s !! t) as [a|] eqn:Ha; [|done].
-    destruct (match r with RCancelled => cancel_sent a | _ => true end); [|done].
+    destruct (match r with RCancelled => cancel_sent a | _ => true end) eqn:Hcs; [|done].
     eapply (apply_step_inv fx watch s t a (EBuildDone r) true); try done; eauto.
+    intros [= ->]. exact Hcs.
   - destruct (root_running s && (watch || negb (root_sets_empty s))) eqn:Hc; [|done].
     apply andb_true_iff in Hc as [Hrun Hc]. apply bool_decide_eq_true in Hrun.
     destruct (rootq s) as [|o rest] eqn:Hq; [done|].
